@@ -351,6 +351,7 @@ class NPModel(NSModel):
             "mean": B("np.mean", lambda a, axis=None: self.reduce("mean", a, axis, False)),
             "max": B("np.max", lambda a, axis=None, initial=None: self.reduce("max", a, axis, False)),
             "min": B("np.min", lambda a, axis=None, initial=None: self.reduce("min", a, axis, False)),
+            "ptp": B("np.ptp", lambda a, axis=None: self.reduce("max", a, axis, False) - self.reduce("min", a, axis, False)),
             "amax": B("np.amax", lambda a, axis=None: self.reduce("max", a, axis, False)),
             "amin": B("np.amin", lambda a, axis=None: self.reduce("min", a, axis, False)),
             "all": B("np.all", lambda a, axis=None: self.reduce("all", a, axis, False)),
@@ -359,7 +360,7 @@ class NPModel(NSModel):
             "dot": B("np.dot", lambda a, b, out=None: self.dot(a, b)),
             "matmul": B("np.matmul", lambda a, b: self.dot(a, b)),
             "outer": B("np.outer", lambda a, b: self.binop("Mult", to_array(a).reshape(-1, 1), to_array(b).reshape(1, -1))),
-            "einsum": B("np.einsum", lambda subs, *ops, **kw: sym_einsum(self.interp, subs, *ops)),
+            "einsum": B("np.einsum", lambda subs, *ops, **kw: self._einsum(subs, ops, kw)),
             "tensordot": B("np.tensordot", self.tensordot),
             "trace": B("np.trace", lambda a: fold(lambda x, y: I.scalar_binop("Add", x, y), [to_array(a)[i, i] for i in range(min(to_array(a).shape))], 0)),
             "stack": B("np.stack", lambda arrs, axis=0: native(np.stack, [self._o(a) for a in arrs], axis)),
@@ -448,6 +449,24 @@ class NPModel(NSModel):
         if any(a.dtype == object for a in arrs):
             return [I.obj_array(a) for a in arrs]
         return arrs
+
+    def _einsum(self, subs, ops, kw):
+        """np.einsum with its `out=` argument honoured (the result OVERWRITES out, it is not added to it); `optimize` is irrelevant to the value."""
+        I = _imp()
+        extra = set(kw) - {"out", "optimize"}
+        if extra:
+            raise I.Unsupported("np.einsum keyword(s) %s" % sorted(extra))
+        r = sym_einsum(self.interp, subs, *ops)
+        out = kw.get("out")
+        if out is None:
+            return r
+        r = np.asarray(r, dtype=object)
+        if not isinstance(out, np.ndarray) or out.shape != r.shape:
+            raise I.Unsupported("np.einsum out= of a different shape")
+        if out.dtype != object:
+            raise I.Unsupported("np.einsum out= into a numeric array with symbolic operands")
+        out[...] = r
+        return out
 
     def _concrete(self, a):
         I = _imp()
